@@ -104,32 +104,41 @@ theorem registerInitsPrefix_fresh (d : Nat) (is : List (Name × String)) :
     rw [hstep, this]
     cases g; simp [Graph.setInits, Graph.inits, Graph.inputs, Graph.nodes, Graph.outputs]
 
-/-! initializer registration (after fix 340a24c) -/
+/-! naming and initializer registration (after fixes 340a24c, c9666a4) -/
 
-theorem freshInitName_spec (taken : List Name) (x y : Name) (h : freshInitName taken x = some y) :
-    y ∉ taken := by
+theorem freshIn_spec (names : List Name) (base y : Name) (h : freshIn names base = some y) : y ∉ names := by
+  unfold freshIn at h
+  have := List.find?_some h
+  simpa using this
+
+theorem freshInitName_spec (names taken : List Name) (x y : Name) (hsub : ∀ z ∈ taken, z ∈ names)
+    (h : freshInitName names taken x = some y) : y ∉ taken ∧ y ∉ names := by
   unfold freshInitName at h
   split at h
   · rename_i hc
     simp only [Option.some.injEq] at h
     subst h
-    simpa using hc
-  · have := List.find?_some h
-    simpa using this
+    simp only [Bool.and_eq_true, Bool.not_eq_eq_eq_not, Bool.not_true, List.contains_eq_mem,
+      decide_eq_false_iff_not] at hc
+    exact hc
+  · have hn := freshIn_spec names x y h
+    exact ⟨fun hm => hn (hsub y hm), hn⟩
 
 theorem registerInits_spec (is : List (Name × String)) :
-    ∀ (g g' : Graph) (is' : List (Name × String)), registerInits g is = some (g', is') →
+    ∀ (names : List Name) (g g' : Graph) (is' : List (Name × String)) (names' : List Name),
+      (∀ z ∈ g.initNames, z ∈ names) → registerInits names g is = some (g', is', names') →
       g'.nodes = g.nodes ∧ g'.inputs = g.inputs ∧ g'.outputs = g.outputs ∧ g'.inits = g.inits ++ is' ∧
-      is'.map (·.2) = is.map (·.2) ∧ (∀ y ∈ is'.map (·.1), y ∉ g.initNames) ∧ (is'.map (·.1)).Nodup := by
+      is'.map (·.2) = is.map (·.2) ∧ (∀ y ∈ is'.map (·.1), y ∉ g.initNames ∧ y ∉ names) ∧ (is'.map (·.1)).Nodup ∧
+      names' = names ++ is'.map (·.1) := by
   induction is with
   | nil =>
-    intro g g' is' h
+    intro names g g' is' names' _ h
     simp only [registerInits, Option.some.injEq, Prod.mk.injEq] at h
-    obtain ⟨h1, h2⟩ := h
-    subst h1; subst h2
+    obtain ⟨h1, h2, h3⟩ := h
+    subst h1; subst h2; subst h3
     simp
   | cons p rest ih =>
-    intro g g' is' h
+    intro names g g' is' names' hsub h
     obtain ⟨x, t⟩ := p
     simp only [registerInits] at h
     split at h
@@ -137,30 +146,38 @@ theorem registerInits_spec (is : List (Name × String)) :
     · rename_i y hy
       split at h
       · exact absurd h (by simp)
-      · rename_i g1 r hr
+      · rename_i g1 r n1 hr
         simp only [Option.some.injEq, Prod.mk.injEq] at h
-        obtain ⟨h1, h2⟩ := h
-        subst h1; subst h2
-        have hyt := freshInitName_spec _ _ _ hy
-        obtain ⟨a1, a2, a3, a4, a5, a6, a7⟩ := ih _ _ _ hr
+        obtain ⟨h1, h2, h3⟩ := h
+        subst h1; subst h2; subst h3
+        obtain ⟨hyt, hyn⟩ := freshInitName_spec _ _ _ _ hsub hy
         have hnames : (g.setInits (g.inits ++ [(y, t)])).initNames = g.initNames ++ [y] := by
           cases g; simp [Graph.setInits, Graph.initNames, Graph.inits]
+        have hsub' : ∀ z ∈ (g.setInits (g.inits ++ [(y, t)])).initNames, z ∈ names ++ [y] := by
+          intro z hz
+          rw [hnames] at hz
+          rcases List.mem_append.mp hz with h | h
+          · exact List.mem_append.mpr (Or.inl (hsub z h))
+          · exact List.mem_append.mpr (Or.inr h)
+        obtain ⟨a1, a2, a3, a4, a5, a6, a7, a8⟩ := ih _ _ _ _ _ hsub' hr
         have hbase : (g.setInits (g.inits ++ [(y, t)])).nodes = g.nodes ∧
             (g.setInits (g.inits ++ [(y, t)])).inputs = g.inputs ∧
             (g.setInits (g.inits ++ [(y, t)])).outputs = g.outputs ∧
             (g.setInits (g.inits ++ [(y, t)])).inits = g.inits ++ [(y, t)] := by
           cases g; simp [Graph.setInits, Graph.nodes, Graph.inputs, Graph.outputs, Graph.inits]
         rw [hnames] at a6
-        refine ⟨a1.trans hbase.1, a2.trans hbase.2.1, a3.trans hbase.2.2.1, ?_, ?_, ?_, ?_⟩
+        refine ⟨a1.trans hbase.1, a2.trans hbase.2.1, a3.trans hbase.2.2.1, ?_, ?_, ?_, ?_, ?_⟩
         · rw [a4, hbase.2.2.2]; simp
         · simp [a5]
         · intro z hz
           simp only [List.map_cons, List.mem_cons] at hz
           rcases hz with rfl | hz
-          · exact hyt
-          · exact fun hm => a6 z hz (by simp [hm])
+          · exact ⟨hyt, hyn⟩
+          · have := a6 z hz
+            exact ⟨fun hm => this.1 (by simp [hm]), fun hm => this.2 (by simp [hm])⟩
         · simp only [List.map_cons, List.nodup_cons]
-          exact ⟨fun hm => a6 y hm (by simp), a7⟩
+          exact ⟨fun hm => (a6 y hm).1 (by simp), a7⟩
+        · rw [a8]; simp
 
 /-! opset imports of an extracted function -/
 
